@@ -270,3 +270,24 @@ func mkWireBstr(name string, lo, hi int) (*vNodeT, []byte) {
 	b := vBlobN(name, lo, hi)
 	return nnBstr(b, vWidth(name+".w", uint64(len(b)))), b
 }
+
+// vOtherTraffic: the library is used on an unrelated message between two steps of a harness
+// (decoders and encoders must not communicate through hidden state)
+func vOtherTraffic(name string) {
+	if vChoose(name+".traffic", 2) == 0 {
+		return
+	}
+	kid := vBlobN(name+".t.kid", 1, 8)
+	prot := vSer(nnMap([]*vNodeT{nnInt(0, 1, -1), nnInt(1, 6, -1), nnInt(0, 4, -1), nnBstr(kid, -1)}, -1))
+	un := nnMap([]*vNodeT{nnInt(0, 4, -1), nnBstr(vBlobN(name+".t.ukid", 1, 8), -1)}, -1)
+	body := nnArray([]*vNodeT{nnBstr(prot, -1), un, nnBstr(vBlobN(name+".t.payload", 0, 64), -1), nnBstr(vBlobN(name+".t.sig", 1, 64), -1)}, 0)
+	var o Sign1Message
+	if o.UnmarshalCBOR(vSer(nnTag(18, body, 0))) == nil {
+		o.MarshalCBOR()
+	}
+	var os SignMessage
+	sg := nnArray([]*vNodeT{nnBstr(prot, -1), nnMap(nil, 0), nnBstr(vBlobN(name+".t.ssig", 1, 64), -1)}, 0)
+	if os.UnmarshalCBOR(vSer(nnTag(98, nnArray([]*vNodeT{nnBstr([]byte{}, 0), nnMap(nil, 0), nnBstr(vBlobN(name+".t.spayload", 0, 64), -1), nnArray([]*vNodeT{sg}, 0)}, 0), 1))) == nil {
+		os.MarshalCBOR()
+	}
+}
